@@ -179,8 +179,10 @@ func (r *run) passwords() {
 				want := pw == pw2
 				got := out == oOk && samePublic(k, kt.k.Public())
 				switch {
-				case want && got, !want && out != oOk:
+				case want && got, !want && out == oErr:
 					c.OracleOK()
+				case out == oPanic:
+					c.OracleFail(idx, "DecryptPrivKey panics instead of returning a key or an error", "bootguard.DecryptPrivKey", map[string]interface{}{"enc_password_hex": hexs([]byte(pw)), "dec_password_hex": hexs([]byte(pw2)), "file_hex": hexs(enc)})
 				case want:
 					c.OracleFail(idx, "private key does not decrypt with its own password", "bootguard.DecryptPrivKey", map[string]interface{}{"password_hex": hexs([]byte(pw)), "file_hex": hexs(enc), "outcome": out})
 				default:
@@ -213,13 +215,14 @@ func (r *run) passwords() {
 	for n := 0; n <= 40 && n < len(sampleEnc); n++ {
 		for _, pw := range []string{"password", ""} {
 			out, _, idx := r.decryptCase("decrypt/truncated", sampleEnc[:n], pw, map[string]interface{}{"length": n, "password": pw}, n >= 12)
-			if out == oOk {
+			switch out {
+			case oOk:
 				c.OracleFail(idx, "truncated wrapped key decrypts", "bootguard.DecryptPrivKey", map[string]interface{}{"length": n})
-			} else {
+			case oPanic:
+				// repaired by 4423a4c: a wrong/short key file is an error value, never a panic
+				c.OracleFail(idx, fmt.Sprintf("DecryptPrivKey panics on a key file of %d bytes (password %q) instead of returning an error", n, pw), "bootguard.DecryptPrivKey", map[string]interface{}{"length": n, "password": pw, "file_hex": hexs(sampleEnc[:n])})
+			default:
 				c.OracleOK()
-			}
-			if out == oPanic {
-				c.Count("decrypt/panic-on-short-input")
 			}
 		}
 	}
